@@ -115,6 +115,71 @@ def recreate(rc):
         rc.fail(cb, cb.node, "the constant network must expose each template CPD unchanged (own table, own evidence order, consistently renamed variables)", construct="constant bn")
 
 
+@rule("C17.slices", "time-slice coordinates agree: evidence re-keyed to slice s is only filtered against the slice-s interface nodes; interface marginals are shifted to the other slice", floor=5)
+def slices(rc):
+    """The 1.5-slice engine lives in coordinates (name, 0) / (name, 1).  `_get_evidence(evidence, t, s)` re-keys the evidence of absolute
+    slice t to (name, s); `interface_nodes_K` holds (name, K) nodes.  A dictionary keyed in slice s filtered by membership in the slice-K
+    interface nodes with s != K is always empty: observed interface nodes are then silently not carried to the next step."""
+    repo = rc.repo
+    init = repo.func(DI, "DBNInference.__init__")
+    for K in (0, 1):
+        if not tm.has(init.node, f"self.interface_nodes_{K} = model.get_interface_nodes(time_slice={K})"):
+            rc.fail(init, init.node, f"interface_nodes_{K} must be the interface nodes of slice {K}", construct=f"interface nodes {K}")
+    gi = repo.func(DBN, "DynamicBayesianNetwork.get_interface_nodes")
+    if not any(tm.is_(r.value, "[DynamicNode(_e[time_slice][0], _e[time_slice][1]) for _e in self.get_inter_edges()]") is not None for r in returns_of(gi) if r.value is not None):
+        rc.fail(gi, gi.node, "get_interface_nodes(time_slice=k) must return the slice-k endpoint of every inter-slice edge", construct="interface endpoints")
+    ge = repo.func(DI, "DBNInference._get_evidence")
+    P = ge.params  # self, evidence_dict, time_slice, shift
+    okg = any(tm.is_(r.value, "{(_n[0], _sh): _ed[_n] for _n in _ed if _n[1] == _ts}", {"_ed": P[1], "_ts": P[2], "_sh": P[3]}) is not None for r in returns_of(ge) if r.value is not None)
+    rc.ob(f"_get_evidence re-keys the evidence of slice `{P[2]}` to slice `{P[3]}`: {okg}")
+    if not okg:
+        rc.fail(ge, ge.node, "_get_evidence must select the evidence of the given absolute slice and re-key it to the requested engine slice", construct="get evidence")
+    n_sites = 0
+    for name in ("forward_inference", "backward_inference"):
+        f = repo.func(DI, f"DBNInference.{name}")
+        tags = {}
+        for n in ast.walk(f.node):
+            if isinstance(n, ast.Assign) and len(n.targets) == 1 and isinstance(n.targets[0], ast.Name):
+                v = n.value
+                if isinstance(v, ast.BoolOp) and isinstance(v.op, ast.Or) and v.values:
+                    v = v.values[0]
+                if isinstance(v, ast.Call) and call_name(v) == "_get_evidence" and len(v.args) == 3 and isinstance(v.args[2], ast.Constant):
+                    tags.setdefault(n.targets[0].id, set()).add(v.args[2].value)
+        for c in ast.walk(f.node):
+            gens = c.generators if isinstance(c, (ast.DictComp, ast.ListComp, ast.SetComp, ast.GeneratorExp)) else []
+            for g in gens:
+                src = g.iter.func.value if isinstance(g.iter, ast.Call) and call_name(g.iter) in ("items", "keys") and isinstance(g.iter.func, ast.Attribute) else g.iter
+                if not isinstance(src, ast.Name) or src.id not in tags:
+                    continue
+                kv = g.target.elts[0] if isinstance(g.target, ast.Tuple) else g.target
+                for cond in g.ifs:
+                    K = None
+                    for K_ in (0, 1):
+                        if tm.is_(cond, f"_k in self.interface_nodes_{K_}", {"_k": dotted(kv)}) is not None:
+                            K = K_
+                    if K is None:
+                        continue
+                    n_sites += 1
+                    t = tags[src.id]
+                    rc.ob(f"{name}: `{norm(c, 90)}`: keys of `{src.id}` live in slice {sorted(t)}, filtered against the slice-{K} interface nodes")
+                    if t != {K}:
+                        rc.fail(f, c, f"DBNInference.{name}: `{src.id}` is evidence re-keyed to slice {sorted(t)} but is filtered by membership in interface_nodes_{K} (slice-{K} nodes): "
+                                "the filter never matches, so observed interface nodes are not carried over to the next time step", construct=f"{name} slice mismatch {src.id} vs interface_nodes_{K}")
+        # interface marginal of slice K is shifted to slice 1-K before it enters the next engine
+        for K in (0, 1):
+            for n_, b in tm.find_all(f.node, f"_M = self._marginalize_factor(self.interface_nodes_{K}, _phi)"):
+                sh = [bb for _, bb in tm.find_all(f.node, "_X = self._shift_factor(_M, __S)", {"_M": b["_M"]})]
+                for bb in sh:
+                    n_sites += 1
+                    sv = bb["__S"].value if isinstance(bb["__S"], ast.Constant) else None
+                    rc.ob(f"{name}: marginal over the slice-{K} interface nodes shifted to slice {sv}")
+                    if sv != 1 - K:
+                        rc.fail(f, n_, f"DBNInference.{name}: the potential over the slice-{K} interface nodes must be shifted to slice {1 - K} before it is multiplied into the neighbouring step",
+                                construct=f"{name} interface shift {K}")
+    if n_sites < 3:
+        raise AnalysisError(f"DBNInference: only {n_sites} slice-coordinate sites found")
+
+
 @rule("C17.engines", "a fresh BeliefPropagation per slice; BeliefPropagation copies the junction tree it is given", floor=3)
 def engines(rc):
     repo = rc.repo
@@ -156,12 +221,24 @@ def engines(rc):
 
 
 
+@rule("C17.memo", "the DBN engine keeps no message cache whose key omits an input of the cached computation (state that outlives a query)", floor=0)
+def memo(rc):
+    from . import shared as _sh
+    _sh.memo_rule(rc, (DI, DBN))
+    rc.ob("dbn_inference / DynamicBayesianNetwork: memo-key completeness checked at every `if K not in self.X: self.X[K] = f(...)` site")
+
+
 @rule("C17.defuse", "anchored files: no parameter is accepted and ignored (generic def-use detector, triaged exemptions)", floor=2)
 def defuse(rc):
     from . import shared as _sh
     _sh.defuse_rule(rc, _sh.anchor_files("C17"))
 
 MUTANTS = [
+    dict(kind="break", name="carry-over-keys-in-wrong-slice", file=DI, expect="C17.slices",
+         old="            if evidence_time:\n                interface_nodes_dict = {\n                    (k[0], 0): v\n                    for k, v in evidence_time.items()\n                    if k in self.interface_nodes_1\n                }\n            else:\n                interface_nodes_dict = {}",
+         new="            observed = self._get_evidence(evidence, time_slice, 0) or {}\n            interface_nodes_dict = {k: v for k, v in observed.items() if k in self.interface_nodes_1}"),
+    dict(kind="break", name="backward-marginal-not-shifted", file=DI, expect="C17.slices",
+         old="            update_factor = self._shift_factor(in_clique_phi, 1)", new="            update_factor = self._shift_factor(in_clique_phi, 0)"),
     dict(kind="break", name="initial-state-literal-two", file=DBN, expect="C17.recreate",
          old="np.reshape(cpd.values, (cpd.variable_card, -1)),", new="np.reshape(cpd.values, (2, -1)),"),
     dict(kind="break", name="initial-state-parents-from-graph", file=DBN, expect="C17.recreate",
